@@ -5,6 +5,7 @@ package c19
 
 import (
 	"math/rand"
+	"runtime"
 	"testing"
 
 	"verifharness/kit"
@@ -243,7 +244,7 @@ func TestCheck(t *testing.T) {
 		"Part 1 enumerates EVERY vector of the 14 core classes (ok, not-ok, hang, 8 unavailability/ambiguous, 3 other errors) x every gate order for all shapes with <= 3 nodes " +
 		"(quick: one PRNG-chosen applicable method per cell; thorough: every applicable method) and, for shapes with <= 2 nodes, additionally every caller-cancellation point x {cancel, deadline}; part 2 samples up to 4 primaries x 3 fallbacks with 23 classes, nodes answering immediately, nodes ignoring their context, " +
 		"cancel/deadline before the call, during primaries, during fallbacks; part 3 runs concurrent calls through one client; " +
-		"part 4 (HTTP world) runs the production client eth2wrap.NewMultiHTTP (multi -> lazy first-use initialisation -> go-eth2-client) with a 60 s per-node timeout against 1-3 primary and 0-2 fallback loopback HTTP nodes " +
+		"part 5 (aged clients): sampled cells run through a client that was built, made one successful call, and is then older than the best-node selector period (one minute, real time; pacing only) so that the first success of the new period runs the selector reset while the call is in flight; part 4 (HTTP world) runs the production client eth2wrap.NewMultiHTTP (multi -> lazy first-use initialisation -> go-eth2-client) with a 60 s per-node timeout against 1-3 primary and 0-2 fallback loopback HTTP nodes " +
 		"that answer with node-unique payloads, refuse connections, answer 503 to everything, answer 400/404/503 on the endpoint only, report syncing, and block their handlers on harness gates during the client's first-use initialisation or on the endpoint afterwards; " +
 		"provide-style (NodePeerCount, AttestationData), submit-style (SubmitAttestations, SubmitProposalPreparations) and Proxy (GET / POST) calls; the caller cancels / hits its deadline while nodes hang. " +
 		"The two calls with their own success predicate (NodeSyncing: isSyncStateOk, AggregateAttestation: isAggregateAttestationOk) run in all parts with per-node answers that vary in every field such a predicate could read " +
@@ -274,7 +275,8 @@ func TestCheck(t *testing.T) {
 	if r.Thorough() {
 		nHTTP = 12000
 	}
-	total := nEnum + nEnumCancel + nSample + nBurst + nHTTP
+	nAged := agedCount(r.Thorough())
+	total := nAged + nEnum + nEnumCancel + nSample + nBurst + nHTTP
 	n := r.N(total, total)
 	complete := n >= total
 	r.Set("enumerated_subspace_cells", enumTotal)
@@ -307,11 +309,34 @@ func TestCheck(t *testing.T) {
 		stride += 2
 	}
 
-	r.Cases(n, 0, func(c *kit.Case) {
+	r.Require("aged/calls_returned_success_in_second_selector_period", int64(nAged)/2)
+	// the aged cells are the first indices: the first nAged workers pick them up at once and sleep
+	// through the selector period while the other workers run everything else
+	r.Cases(n, runtime.GOMAXPROCS(0)+nAged, func(c *kit.Case) {
 		idx := c.Idx
 		if !complete { // scaled-down run (mutant self-test): spread over the whole space
 			idx = int(int64(c.Idx) * int64(total) / int64(n))
 		}
+		if idx < nAged {
+			spec := sampleCell(c.Rng)
+			// a call cancelled before it starts never reaches the selector; the selector is touched by
+			// the first successful answer, so the aged cells have at least one successful primary
+			okPrim := func(s *cellSpec) bool {
+				for _, n := range s.Prim {
+					if n.Class == clOK {
+						return true
+					}
+				}
+
+				return false
+			}
+			for tries := 0; tries < 200 && (spec.Cancel != cancelNone || !okPrim(spec)); tries++ {
+				spec = sampleCell(c.Rng)
+			}
+			runAgedCell(c, spec)
+			return
+		}
+		idx -= nAged
 		// a broken tree: stop once a world has produced plenty of violations (each world on its own,
 		// so a defect visible through both clients is reported for both)
 		isHTTP := idx >= nEnum+nEnumCancel+nSample+nBurst
